@@ -5,15 +5,15 @@ from .. import core, progen
 from ..core import HEADER, CASE_TYPE, CHECK, MODEL_VIEW, SHARD, CASE_TIMEOUT, observe, coq_term, nontrivial_key, tags  # noqa: F401
 
 ID = "C09"
-THEOREMS = ["C09_inline", "C09_undefined_macro", "C09_too_few_arguments"]
+THEOREMS = ["C09_inline", "C09_undefined_macro", "C09_too_few_arguments", "C09_deferred_argument"]
 RULE = ("generated macro definitions (0-3 parameters, all statement kinds in bodies, local labels, nested calls, code-block "
         "parameters) x argument expressions (literals, constants, backward/forward labels, names equal to parameter names) "
         "x 1-4 applications; each program is compared with the model and with its mechanically inlined twin "
         "({ q := arg ... body[p:=q] } with fresh q); undefined macro / too few arguments must be rejected")
 PROVED_NOTE = ("proved: an application whose arguments evaluate at the call site generates exactly the nodes and resolver "
                "state of the block { p1 := v1 ... pn := vn body } (literal-bound twin), in its own scope; undefined macro and "
-               "too few arguments fail. Correspondence-only: deferred (forward-label) arguments and code-block arguments, "
-               "checked by the inlined twin on the implementation and by the model tie.")
+               "too few arguments fail. a deferred (forward-label) argument is bound, when the passes run, to its value in the caller's scope. "
+               "Correspondence-only: the whole-program equality with the inlined twin for deferred and code-block arguments.")
 MANIFEST = {
     "text": ("Coq theorem over the Gallina model of generate_macro_application (all macros/arguments of the eager kind); model "
              "tied to the code by differential runs; oracle: the implementation's output for the program equals its output for "
